@@ -115,6 +115,10 @@ theorem specWindow_length (li : Idx) (H W kh kw sh sw i j : Nat) :
   simp only [List.length_map, rangeFrom_length]
   rw [sum_map_const, rangeFrom_length]
 
+/-- without identity and without initial value NumPy's fold is the fold from the first element (undefined on nothing) -/
+theorem foldNumpy_none_none (op : α → α → α) (l : List α) : foldNumpy none op none l = foldFirst op none l := by
+  cases l <;> rfl
+
 theorem maxPoolElem_eq {lead li : List Nat} [LT α] [DecidableRel (α := α) (· < ·)]
     (hli : InShape li lead) {H W kh kw sh sw i j : Nat}
     (hkh : 0 < kh) (hkw : 0 < kw) (hi : sh * i < H) (hj : sw * j < W) (x : Arr α) (hx : x.shape = lead ++ [H, W]) :
@@ -122,8 +126,9 @@ theorem maxPoolElem_eq {lead li : List Nat} [LT α] [DecidableRel (α := α) (·
       = foldFirst maximum none ((specWindow li H W kh kw sh sw i j).map x.get) := by
   unfold maxPoolElem
   rw [hx, slicePool2d_append lead li hli.length_eq]
-  simp only [Option.bind_some, reduceElem, reducer_eq_foldFirst]
+  simp only [Option.bind_some, reduceElem, reduceElemId, flattenReduce_eq]
   rw [pool_sliced_flat hli hkh hkw hi hj x hx]
+  exact foldNumpy_none_none _ _
 
 theorem avgPoolElem_eq {lead li : List Nat} (add : α → α → α) (divn : α → Nat → α)
     (hli : InShape li lead) {H W kh kw sh sw i j : Nat}
@@ -134,8 +139,8 @@ theorem avgPoolElem_eq {lead li : List Nat} (add : α → α → α) (divn : α 
   unfold avgPoolElem
   rw [hx, slicePool2d_append lead li hli.length_eq]
   simp only [Option.bind_some, mean, unwrapAxes, meanDivisor, reduce, Option.map_none, removeDims_none_false,
-    Option.map_some, reduceElem, reducer_eq_foldFirst]
-  rw [pool_sliced_flat hli hkh hkw hi hj x hx]
+    Option.map_some, reduceElem, reduceElemId, flattenReduce_eq]
+  rw [pool_sliced_flat hli hkh hkw hi hj x hx, foldNumpy_none_none]
   have hlen : prod (slicedArr x (li.map (fun i => (i, i + 1, 1)) ++
       [(sh * i, sh * i + kh, 1), (sw * j, sw * j + kw, 1)])).shape = (specWindow li H W kh kw sh sw i j).length := by
     have := congrArg List.length (pool_sliced_flat hli hkh hkw hi hj x hx)
